@@ -55,6 +55,33 @@ func runC02(p *core.Prog, r *core.Report, tier string) {
 		return
 	}
 	jobsField := core.FieldID{Owner: schedRel + ".Service", Name: "jobs"}
+	// the job-state lock, by role: the mutex field of the struct that holds the signal channels
+	stateLock := "stateLock"
+	if pk := p.ByPath[core.ModulePath+"/"+schedRel]; pk != nil && pk.Types != nil {
+		for _, name := range pk.Types.Scope().Names() {
+			tn, ok := pk.Types.Scope().Lookup(name).(*types.TypeName)
+			if !ok {
+				continue
+			}
+			st, ok := tn.Type().Underlying().(*types.Struct)
+			if !ok {
+				continue
+			}
+			hasCh, mu := false, ""
+			for i := 0; i < st.NumFields(); i++ {
+				f := st.Field(i)
+				if _, isCh := f.Type().Underlying().(*types.Chan); isCh {
+					hasCh = true
+				}
+				if core.IsMutexType(f.Type()) && mu == "" {
+					mu = f.Name()
+				}
+			}
+			if hasCh && mu != "" {
+				stateLock = mu
+			}
+		}
+	}
 
 	isDeleteJobs := func(in ssa.Instruction) bool {
 		c, ok := in.(*ssa.Call)
@@ -330,7 +357,7 @@ func runC02(p *core.Prog, r *core.Report, tier string) {
 				held := la.HeldAt(f)
 				core.EachInstr(f, func(in ssa.Instruction) {
 					if isDeleteJobs(in) {
-						r.Check(held[in].HasName("jobsMutex", true), "C02.d", base+"|delete-locked", p.Pos(in.Pos()), "removal under jobsMutex", "the name is removed without jobsMutex write-held")
+						r.Check(heldGuard(p, la, held[in], jobsField, true), "C02.d", base+"|delete-locked", p.Pos(in.Pos()), "removal under jobsMutex", "the name is removed without jobsMutex write-held")
 					}
 				})
 				// lookup and delete in one critical section
@@ -412,7 +439,7 @@ func runC02(p *core.Prog, r *core.Report, tier string) {
 				if s := sendOrigin(f, in); s != nil {
 					at = s
 				}
-				r.Check(held[at].HasName("stateLock", true), "C02.e", base+"|locked", p.Pos(at.Pos()), "send with stateLock held", "send on "+chName+" without stateLock held (can race with close: panic)")
+				r.Check(held[at].HasName(stateLock, true), "C02.e", base+"|locked", p.Pos(at.Pos()), "send with stateLock held", "send on "+chName+" without stateLock held (can race with close: panic)")
 				notFinal := func(c core.Cond) int {
 					if c.B != nil && c.B.IsCall("atomic.Bool.Load") && c.B.MentionsField("finalised") {
 						if c.BoolOnEdge(0) {
@@ -440,7 +467,7 @@ func runC02(p *core.Prog, r *core.Report, tier string) {
 							return
 						}
 						op, ok := core.LockOpOf(uc)
-						if !ok || op.Acquire || op.Lock.Field.Name != "stateLock" {
+						if !ok || op.Acquire || op.Lock.Field.Name != stateLock {
 							return
 						}
 						w1 := core.PathQuery{Fn: f, From: x, Target: func(y ssa.Instruction) bool { return y == u }}.Find()
@@ -467,7 +494,7 @@ func runC02(p *core.Prog, r *core.Report, tier string) {
 				return
 			}
 			base := core.FnKey(f) + "|close-" + ch
-			r.Check(held[in].HasName("stateLock", true), "C02.e", base+"|locked", p.Pos(in.Pos()), "close with stateLock held", "close of "+ch+" without stateLock held")
+			r.Check(held[in].HasName(stateLock, true), "C02.e", base+"|locked", p.Pos(in.Pos()), "close with stateLock held", "close of "+ch+" without stateLock held")
 			// finalised stored true before, on every path
 			w := core.PathQuery{Fn: f, Target: func(x ssa.Instruction) bool { return x == in }, Avoid: func(x ssa.Instruction) bool {
 				if sc, ok := x.(*ssa.Call); ok && core.MethodName(sc.Common()) == "Store" && len(sc.Call.Args) == 2 {
